@@ -44,6 +44,7 @@ type Op struct {
 	Val   int            `json:"val,omitempty"` // set; default of get
 	KV    map[string]int `json:"kv,omitempty"`  // setall
 	Kinds []string       `json:"kinds,omitempty"`
+	Own   bool     `json:"own,omitempty"` // addk / delk: the argument is the node's own DeletedKinds / Kinds slice
 }
 
 type Case struct {
@@ -101,7 +102,11 @@ func genOps(t *rapid.T, node bool) []Op {
 		case "merge":
 			op.O = rapid.IntRange(0, maxLive-2).Draw(t, "o")
 		case "addk", "delk":
-			if rapid.IntRange(0, 3).Draw(t, "multi") == 3 {
+			if rapid.IntRange(0, 9).Draw(t, "own") == 0 {
+				// the argument is the node's own slice: DeleteKinds(n.Kinds...) ("drop every kind"),
+				// AddKinds(n.DeletedKinds...) ("take the deletions back")
+				op.Own = true
+			} else if rapid.IntRange(0, 3).Draw(t, "multi") == 3 {
 				op.Kinds = genKinds(t, "ks", 50)
 			} else {
 				op.Kinds = []string{rapid.SampledFrom(kindAlphabet).Draw(t, "kind")}
@@ -740,6 +745,16 @@ func run(c Case, veto func(step int, recv, other *model, withKinds bool) bool) (
 			if !isNode {
 				break
 			}
+			if op.Own {
+				// the names the node's own slice holds at this moment, according to the model
+				op.Kinds = nil
+				if op.K == "delk" {
+					op.Kinds = m.k.sorted()
+				} else {
+					op.Kinds = m.kd.sorted()
+				}
+				cls["kind:own-slice-as-argument"] = true
+			}
 			before := len(m.k)
 			beforeSet := m.k.clone()
 			for _, k := range op.Kinds {
@@ -762,6 +777,10 @@ func run(c Case, veto func(step int, recv, other *model, withKinds bool) bool) (
 			}
 			if dry {
 				// model only
+			} else if op.Own && op.K == "addk" {
+				e.n.AddKinds(e.n.DeletedKinds...)
+			} else if op.Own {
+				e.n.DeleteKinds(e.n.Kinds...)
 			} else if op.K == "addk" {
 				e.n.AddKinds(toKinds(op.Kinds)...)
 			} else {
